@@ -935,9 +935,25 @@ def no_wait_facts(tr, entries):
              "forbidden_at_wait": sorted(set(mode(l, w) for l, w in full if w or tr.locks[l] in tr.rwlocks)),
              "entries_checked": len(entries), "violations": viol}, rx, waits, wmx)
 
-def single_hold_facts(tr):
+def getter_facts(tr, pub):
+    """C10, 'every getter result is a state that existed at some instant': for every public getter and every lock that guards
+    something the getter touches (transitively), all its accesses to the data under that lock lie inside ONE hold of the lock
+    (a two-pass getter that releases the lock between counting and copying fails this)"""
+    rows = []
+    for f in pub:
+        if not f.startswith("bidib_get_"): continue
+        by_lock = {}
+        for gi in sorted(tr.accsum.get(f, ())):
+            g = tr.globals[gi]; l = tr.guard_of.get(g)
+            # the tracked state and the board / train tables (not the transmission side a few "getters" use to send a query)
+            if l and not g.startswith(("call:", "wait:")) and (l.startswith("trackstate_") or l in ("bidib_boards_rwlock", "bidib_trains_rwlock")):
+                by_lock.setdefault(l, []).append(g)
+        for l, gs in sorted(by_lock.items()): rows.append(("c10_getter", f, l, False, tuple(gs)))
+    return rows
+
+def single_hold_facts(tr, pub=()):
     out = []
-    for tab, f, lock, excl, gs in SINGLE_HOLD:
+    for tab, f, lock, excl, gs in SINGLE_HOLD + getter_facts(tr, pub):
         if f not in tr.fns: raise TranslatorError("single-hold fact names function %s, which the source no longer defines" % f)
         for g in gs:
             if g not in tr.guard_of: raise TranslatorError("single-hold fact names global %s, which has no guard" % g)
@@ -1181,7 +1197,7 @@ def generate(repo):
     L.append("Definition ex_atomic_global : nat := %d." % (tr.glob_id(TRN) if atom_ok else 0))
     for nm, fn in ATOMIC_EX:
         L.append("Definition %s : nat := %d." % (nm, fid.get(fn, 0)))
-    shf = single_hold_facts(tr)
+    shf = single_hold_facts(tr, pub)
     for tab in sorted(set(d["table"] for d in shf)):
         rows = ["(%d, %d, %s, [%s])" % (fid[d["function"]], tr.lock_id(d["lock"]), "true" if d["exclusive"] else "false", "; ".join(str(tr.glob_id(g)) for g in d["globals"])) for d in shf if d["table"] == tab]
         L.append("(* single-hold facts (function, lock, exclusive?, globals): " + "; ".join("%s/%s" % (d["function"], d["lock"]) for d in shf if d["table"] == tab) + " *)")
